@@ -212,7 +212,7 @@ func init() {
 		panic(engineError("LocalNode: harness did not provide a local node (vfSetLocalNode)"))
 	}
 	intrinsics["vfSetLocalNode"] = func(p *Path, fr *frame, a []Value) Value {
-		p.ghost["localNode"] = a[0]
+		p.ghost["localNode"] = a[0].(Iface).V
 		return nil
 	}
 	intrinsics["vfSetNumMembers"] = func(p *Path, fr *frame, a []Value) Value {
@@ -257,5 +257,94 @@ func init() {
 	externals["(*net.UDPAddr).String"] = func(p *Path, fr *frame, a []Value) Value {
 		// injective rendering is not needed by any assertion: opaque
 		return &Str{b: []*Term{p.e.byteConst['?']}, opaque: true}
+	}
+}
+
+// OpaqueBytes is an encoded message of symbolic length whose content is never inspected
+// (size-limit harnesses): only len() is defined on it.
+type OpaqueBytes struct {
+	length *Term
+	tok    int
+}
+
+func (p *Path) opaqueEnc(first *Term, msg Iface) Value {
+	ts := p.e.ts
+	l := p.newInput("enclen", BVSort(64))
+	p.assumeQuiet(ts.And(ts.BVCmp("bvsge", l, ts.BV(64, 1)), ts.BVCmp("bvsle", l, ts.BV(64, 1<<24))))
+	p.ghost["lastEncLen"] = l
+	p.logs["encLens"] = append(p.logs["encLens"], l)
+	return &OpaqueBytes{length: l, tok: len(p.tokens)}
+}
+
+func init() {
+	wrap := func(name string, msgArg int) {
+		orig := externals[name]
+		externals[name] = func(p *Path, fr *frame, a []Value) Value {
+			if _, ok := p.ghost["opaqueEnc"]; ok {
+				ifc, _ := a[msgArg].(Iface)
+				return Tuple{p.opaqueEnc(nil, ifc), Iface{}}
+			}
+			return orig(p, fr, a)
+		}
+	}
+	wrap(serfPkg+".encodeMessage", 1)
+	wrap(serfPkg+".encodeRelayMessage", 3)
+	intrinsics["vfOpaqueEncoding"] = func(p *Path, fr *frame, a []Value) Value {
+		p.ghost["opaqueEnc"] = true
+		return nil
+	}
+	intrinsics["vfLastEncLen"] = func(p *Path, fr *frame, a []Value) Value {
+		if v, ok := p.ghost["lastEncLen"]; ok {
+			return v
+		}
+		return p.e.ts.BV(64, 0)
+	}
+	intrinsics["vfEncLen"] = func(p *Path, fr *frame, a []Value) Value {
+		i := concInt(a[0])
+		if i < len(p.logs["encLens"]) {
+			return p.logs["encLens"][i]
+		}
+		return p.e.ts.BV(64, 0)
+	}
+	intrinsics["vfPacketLen"] = func(p *Path, fr *frame, a []Value) Value {
+		pk := p.logs["packets"][concInt(a[0])].(Tuple)
+		switch b := pk[1].(type) {
+		case *OpaqueBytes:
+			return b.length
+		case Slice:
+			return p.e.ts.BV(64, uint64(len(b)))
+		}
+		panic(engineError("vfPacketLen: unexpected packet payload"))
+	}
+	// vfQueuedLen(q, i): length of the i-th broadcast queued on q
+	intrinsics["vfQueuedLen"] = func(p *Path, fr *frame, a []Value) Value {
+		key := fmt.Sprintf("queue:%p", a[0].(Ptr))
+		b := p.logs[key][concInt(a[1])].(Iface)
+		msg := (*b.V.(Ptr)).(Struct)[0]
+		switch m := msg.(type) {
+		case *OpaqueBytes:
+			return m.length
+		case Slice:
+			return p.e.ts.BV(64, uint64(len(m)))
+		}
+		panic(engineError("vfQueuedLen: unexpected message"))
+	}
+}
+
+func init() {
+	intrinsics["vfFixedBytes"] = func(p *Path, fr *frame, a []Value) Value {
+		name := p.inputName(concStr(a[0]))
+		n := concInt(a[1])
+		out := make(Slice, n)
+		for i := 0; i < n; i++ {
+			vn := fmt.Sprintf("%s[%d]", name, i)
+			v := p.e.ts.Var(vn, BVSort(8))
+			if !p.inputSet[vn] {
+				p.inputSet[vn] = true
+				p.inputs = append(p.inputs, v)
+			}
+			out[i] = v
+		}
+		return out
 	}
 }
